@@ -81,8 +81,13 @@ pub enum EvalErr {
     SoftforkStackDepthExceeded,
 }
 impl From<std::io::Error> for EvalErr {
-    fn from(_: std::io::Error) -> Self {
-        EvalErr::SerializationError
+    fn from(e: std::io::Error) -> Self {
+        // LimitedWriter reports an exceeded size limit as OutOfMemory
+        if e.kind() == std::io::ErrorKind::OutOfMemory {
+            EvalErr::OutOfMemory
+        } else {
+            EvalErr::SerializationError
+        }
     }
 }
 
